@@ -277,6 +277,20 @@ def m3c(ctx):
     bad = sorted({a[3] for a in at if a[0] == "call" and a[3] in BAD_ADAPTORS})
     ctx.check(ok and not bad, "product-over-all-children", "groups = applied_id_occurrences().map(all_perms) of every child, unfiltered",
               "the product of symmetry groups is not built from all_perms of every child (%s)" % (bad or role_str(g)[:120]), where_of(b, cart[0].bb))
+    # position i of a tuple of the product permutes child i: where the tuple is indexed, the index is the position the mapping
+    # callback was called for — not something computed from it ("repeated children in lockstep": l[first(i)] never produces the
+    # variant in which two occurrences of one class are permuted differently)
+    for sub in b.all_bodies():
+        for c in sub.calls:
+            if not c.callee or sub.blocks[c.bb]["cleanup"]:
+                continue
+            for a_ in c.args:
+                r = strip_role(sub.role_of_operand(a_))
+                if isinstance(r, tuple) and r[0] == "call" and r[1] == "index" and len(r[3]) == 2 and role_mentions_call(r[3][0], "cartesian"):
+                    ix = strip_role(r[3][1])
+                    ctx.check(isinstance(ix, tuple) and ix[0] == "param", "tuple-position-is-child-position", "child i is permuted by component i of the tuple",
+                              "the variant enumeration permutes a child by component %s of the tuple of group elements instead of the component at the child's own position: combinations in which two children get different permutations are never produced" % role_str(ix)[:80],
+                              where_of(sub, c.bb))
     lp = None
     for l in C.iterator_loops(b):
         if role_mentions_call(l[1], "cartesian"):
